@@ -37,7 +37,8 @@ RULE = ("enc: all (ER, priority, DADR shape{none, station mac 1/2/6/7/255, remot
         "0..255 and 255/256 entries; all message bodies of length <=2 for each of the 12 classes; "
         "mutated valid frames.  distinct = distinct (stream, header class) signatures: control bits, "
         "address kinds, MAC-length class, message class / error kind and length bucket"
-        "; history: multi-step histories in one process (refused encode/decode then valid ones, the same NPDU / message object re-used and encoded twice, aliasing of produced PDUs), each step judged like a single operation")
+        "; history: multi-step histories in one process (refused encode/decode then valid ones, the same NPDU / message object re-used and encoded twice, aliasing of produced PDUs), each step judged like a single operation"
+        "; wave 5: caller-owned input buffers (aliasing on the input side), vendor-subclass stream (run-time registered proprietary message classes 0x80..0xFF, generic decode -> typed decode -> re-encode) and subclass-history stream (unregistered user subclasses of the 12 message classes, then the standard decode streams and a registry identity check) in forked workers")
 TRUSTED = ["lean/BacVerif/Model/Npci.lean is a hand transcription of npdu.py (NPCI/NPDU encode/decode, the "
            "12 message classes); tied by the enc/dec/menc/mdec/bdec correspondence streams",
            "translator/registries.py (npdu_types -> Gen/NpduTypes.lean)",
@@ -527,7 +528,7 @@ def oracle(ctx, case, a):
 # ---------------------------------------------------------------- generators
 
 def mac(n, rng):
-    return bytes(rng.getrandbits(8) for _ in range(n)).hex()
+    return rng.getrandbits(8 * n).to_bytes(n, "big").hex() if n else ""
 
 
 NETS = [0, 1, 2, 255, 256, 4660, 65534]
@@ -914,7 +915,10 @@ def hist_encode(st, slots, probe):
             data = bytes.fromhex(st["data"])
             src = slots.get(("enc", slot)) if slot is not None else None
             if src is None:
-                src = NPDU(data)
+                payload = bytearray(data)           # caller-owned buffer …
+                src = NPDU(payload)
+                payload[:] = b"\x30\x01\x0c"        # … recycled for the next APDU before this one goes out
+                payload += b"\x99"
                 if slot is not None:
                     slots[("enc", slot)] = src
             elif len(src.pduData) == len(data):
@@ -973,13 +977,75 @@ def hist_encode(st, slots, probe):
     return reply
 
 
+def decode_from(op, source):
+    """NPDU().decode(PDU(source)) (+ registry dispatch and typed decode for
+    mdec); `source` is whatever the caller hands to PDU().  (reply, decoded object)"""
+    from bacpypes.npdu import NPDU, npdu_types
+    from bacpypes.pdu import PDU
+    try:
+        n = NPDU()
+        n.decode(PDU(source))
+        if op == "dec":
+            return {"r": "ok", "h": jheader(n), "data": bytes(n.pduData).hex()}, n
+        if n.npduNetMessage is None:
+            return {"r": "ok", "kind": "apdu", "h": jheader(n), "data": bytes(n.pduData).hex()}, n
+        if n.npduNetMessage not in npdu_types:
+            return {"r": "ok", "kind": "unknown", "h": jheader(n), "data": bytes(n.pduData).hex()}, n
+        msg = npdu_types[n.npduNetMessage]()
+        msg.decode(n)
+        return {"r": "ok", "kind": "msg", "h": jheader(msg), "m": jmsg(msg)}, msg
+    except Exception as e:
+        return err_reply(e, False), None
+
+
+def snapshot(o):
+    return core.canon([jheader(o), bytes(o.pduData).hex(), jmsg(o) if type(o).__name__ in CODE_OF else None])
+
+
+def hist_decode(st, probe):
+    """one `dec` / `mdec` step: the frame sits in a CALLER-OWNED bytearray (a
+    receive buffer) and, separately, in another PDU's pduData.  Decoding must
+    leave the caller's buffer alone, the same frame object presented again
+    must be read the same way, and changing the buffer afterwards must not
+    change what was decoded."""
+    from bacpypes.pdu import PDU
+    op = st["op"]
+    keep = bytes.fromhex(st["hex"])
+    frame = bytearray(keep)
+    reply, obj = decode_from(op, frame)
+    if bytes(frame) != keep:
+        probe.fail("aliasing", None, "decoding PDU(frame) changed the caller's frame buffer: %d of %d octets left" % (len(frame), len(keep)))
+        return reply
+    again, _ = decode_from(op, frame)
+    if again != reply:
+        probe.fail("not-repeatable", None, "the same frame object presented again reads %s" % (core.canon(again)[:200],))
+    outer = PDU(keep)
+    third, _ = decode_from(op, outer.pduData)
+    if bytes(outer.pduData) != keep:
+        probe.fail("aliasing", None, "decoding PDU(other.pduData) emptied / changed the other PDU")
+    elif third != reply:
+        probe.fail("not-repeatable", None, "the frame taken from another PDU reads %s" % (core.canon(third)[:200],))
+    if obj is not None:
+        before = snapshot(obj)
+        frame[:] = b"\xff" * len(frame)
+        frame += b"\x00\x01"
+        if snapshot(obj) != before:
+            probe.fail("aliasing", None, "changing the caller's buffer after decoding changed the decoded message")
+    return reply
+
+
 def exec_history(steps):
     """run the steps in order in THIS process; [(stateless case, reply, [(kind, what)])]"""
     slots, out = {}, []
     for st in steps:
         case = {k: v for k, v in st.items() if k != "slot"}
         probe, reuse = Probe(), Probe()
-        reply = hist_encode(st, slots, reuse) if st["op"] in ("enc", "menc") else impl(case)
+        if st["op"] in ("enc", "menc"):
+            reply = hist_encode(st, slots, reuse)
+        elif st["op"] in ("dec", "mdec"):
+            reply = hist_decode(st, reuse)
+        else:
+            reply = impl(case)
         oracle(probe, case, reply)              # layout / round trip of ITS OWN fields first
         if "prefix_of" in case and reply != {"r": "err", "k": "decoding"}:
             probe.fail("prefix-accepted", case, "strict prefix of a valid header accepted: %r" % (reply,))
@@ -991,11 +1057,11 @@ def shrink_history(steps, i):
     """smallest history found that still makes its last step fail"""
     def fails(cand):
         return bool(exec_history(cand)[-1][2])
+    if fails([steps[i]]):
+        return [steps[i]]
     for j in range(i - 1, max(-1, i - 10), -1):
         if fails([steps[j], steps[i]]):
             return [steps[j], steps[i]]
-    if fails([steps[i]]):
-        return [steps[i]]
     if fails(steps[max(0, i - 10):i + 1]):
         return steps[max(0, i - 10):i + 1]
     return steps[:i + 1]
@@ -1013,7 +1079,9 @@ def run_histories(ctx, stream, histories):
                 small = shrink_history(steps, i)
                 kind, what = fails[0]
                 ctx.fail(kind, {"op": "history", "steps": small},
-                         "last step (%s) of this history, run in one process: %s" % (case["op"], what), op="history")
+                         "last step (%s) of this history, run in one process (fresh NPDUs are built from a caller-owned "
+                         "bytearray that is recycled before encoding, frames are decoded out of caller-owned bytearrays): %s" % (
+                             case["op"], what), op="history")
     if ctx.model_ok and cases:
         b = core.Driver("drv_c08").ask(cases)
         ctx.compare_stream(stream, cases, replies, b, sig=sig)
@@ -1022,6 +1090,241 @@ def run_histories(ctx, stream, histories):
             ctx.count(stream)
     for h in histories[:2]:
         ctx.sample({"stream": stream, "history": [short_case(c) for c in h[:4]]})
+
+
+# ---------------------------------------------------------------- vendor-proprietary message classes, user subclasses
+
+class Wrap:
+    """ctx whose failures carry the context (`tag`, extra fields) needed to replay them"""
+
+    def __init__(self, ctx, tag, why, **fields):
+        self._ctx, self._tag, self._why, self._fields = ctx, tag, why, fields
+
+    def fail(self, kind, case, what, **f):
+        self._ctx.fail(kind, dict(self._fields, op=self._tag, step=case), self._why + what, **dict(f, op=self._tag))
+
+    def __getattr__(self, k):
+        return getattr(self._ctx, k)
+
+
+def make_vendor_class(mtype, flavor):
+    """a proprietary network message done the supported way: subclass of NPDU
+    with a messageType, registered, header moved with NPCI.update, own body"""
+    from bacpypes.npdu import NPCI, NPDU, register_npdu_type
+
+    class VendorMessage(NPDU):
+        messageType = mtype
+
+        def __init__(self, vendor=None, blob=b"", *args, **kwargs):
+            super(VendorMessage, self).__init__(*args, **kwargs)
+            self.npduNetMessage = mtype
+            if flavor == 0:
+                self.npduVendorID = vendor
+            self.vmBlob = blob
+
+        def encode(self, npdu):
+            NPCI.update(npdu, self)
+            npdu.put_data(self.vmBlob)
+
+        def decode(self, npdu):
+            NPCI.update(self, npdu)
+            self.vmBlob = bytes(npdu.get_data(len(npdu.pduData)))
+    VendorMessage.__name__ = "VendorMessage%02X" % mtype
+    register_npdu_type(VendorMessage)
+    return VendorMessage
+
+
+def vendor_step(klass, st, probe):
+    """(stateless model case, reply).  send: message built locally -> frame
+    (model: `enc` of a header with this type and vendor id, body as payload).
+    recv: frame -> generic NPDU.decode -> npdu_types dispatch -> typed decode
+    (model: `mdec`, an unregistered type for the model: header + payload), then
+    the decoded message is encoded again."""
+    from bacpypes.npdu import NPDU, npdu_types
+    from bacpypes.pdu import PDU
+
+    def send(msg):
+        n = NPDU()
+        msg.encode(n)
+        pdu = PDU()
+        n.encode(pdu)
+        return bytes(pdu.pduData).hex(), n.npduControl
+    mtype = klass.messageType
+    if st["v"] == "send":
+        h = dict(st["h"], msg=mtype, vid=st["vendor"])
+        case = {"op": "enc", "h": h, "data": st["blob"]}
+        try:
+            msg = klass(st["vendor"], bytes.fromhex(st["blob"]))
+            msg.npduVendorID = st["vendor"]
+            apply_header(msg, dict(st["h"], vid=st["vendor"]), with_msg=False)
+            hexs, ctl = send(msg)
+            return case, {"r": "ok", "hex": hexs, "ctl": ctl}
+        except Exception as e:
+            return case, err_reply(e, True)
+    case = {"op": "mdec", "hex": st["hex"]}
+    try:
+        n = NPDU()
+        n.decode(PDU(bytes.fromhex(st["hex"])))
+        if n.npduNetMessage != mtype:
+            return case, impl(case)
+        if npdu_types.get(mtype) is not klass:
+            probe.fail("registry", None, "npdu_types[0x%02X] is %r, not the class registered for it" % (mtype, npdu_types.get(mtype)))
+        got = npdu_types[mtype]()
+        got.decode(n)
+        reply = {"r": "ok", "kind": "unknown", "h": jheader(got), "data": bytes(got.vmBlob).hex()}
+    except Exception as e:
+        return case, err_reply(e, False)
+    # what was received can be sent again, and gives the clause 6.2.2 layout of the decoded fields
+    try:
+        want = ref_parse(bytes.fromhex(st["hex"]))
+        exp = (spec_header(dict(want[0], ver=1))[0] + want[1]).hex()
+        again = send(got)[0]
+        if again != exp:
+            probe.fail("reencode", None, "the decoded proprietary message encodes again as %s, its fields lay out as %s" % (again[:80], exp[:80]))
+    except Refuse:
+        pass
+    except Exception as e:
+        probe.fail("reencode", None, "the decoded proprietary message cannot be encoded again: %r" % (e,))
+    return case, reply
+
+
+def gen_vendor_steps(rng, mtype, quick):
+    steps = []
+    dsh = [a for a in dadr_shapes(rng) if a is None or a[0] != "rs" or len(a[2]) <= 14]
+    ssh = [a for a in sadr_shapes(rng) if a is None or len(a[2]) <= 12]
+    for vendor in VIDS + [0x0123]:
+        for _ in range(2 if quick else 8):
+            d = rng.choice(dsh)
+            h = mk_h(rng.random() < .5, rng.randrange(4), d, rng.choice(ssh), rng.choice(HOPS) if d is not None else None, None, None)
+            blob = bytes(rng.getrandbits(8) for _ in range(rng.choice([0, 1, 2, 7]))).hex()
+            steps.append({"v": "send", "vendor": vendor, "blob": blob, "h": h})
+            frame = spec_header(dict(h, msg=mtype, vid=vendor))[0] + bytes.fromhex(blob)
+            steps.append({"v": "recv", "hex": frame.hex()})
+            b = bytearray(frame)
+            b[1] |= rng.choice([0x40, 0x10, 0x50])            # reserved control bits
+            steps.append({"v": "recv", "hex": bytes(b).hex()})
+            steps.append({"v": "recv", "hex": frame[:rng.randrange(len(frame))].hex()})   # truncated
+    return steps
+
+
+def run_vendor(ctx, mtype, flavor, steps):
+    from bacpypes.npdu import npdu_types
+    klass = make_vendor_class(mtype, flavor)
+    try:
+        cases, replies = [], []
+        w = Wrap(ctx, "vendor", "proprietary message class (subclass of NPDU, registered) for type 0x%02X: " % mtype,
+                 type=mtype, flavor=flavor)
+        for st in steps:
+            probe = Probe()
+            case, reply = vendor_step(klass, st, probe)
+            first = len(ctx.failures)
+            oracle(Wrap(ctx, "vendor", w._why, type=mtype, flavor=flavor, vstep=st), case, reply)
+            if len(ctx.failures) == first:
+                for kind, what in probe.failures[:1]:
+                    ctx.fail(kind, {"op": "vendor", "type": mtype, "flavor": flavor, "vstep": st, "step": case}, w._why + what, op="vendor")
+            cases.append(case)
+            replies.append(reply)
+        if ctx.model_ok and cases:
+            b = core.Driver("drv_c08").ask(cases)
+            ctx.compare_stream("vendor-subclass", cases, replies, b, sig=sig)
+        else:
+            for c in cases:
+                ctx.count("vendor-subclass")
+        ctx.sample({"stream": "vendor-subclass", "type": mtype, "case": short_case(cases[0]) if cases else None})
+    finally:
+        if npdu_types.get(mtype) is klass:
+            del npdu_types[mtype]
+
+
+def _driver_built(ctx):
+    import os
+    ctx.model_ok = os.path.exists(os.path.join(core.LEAN, ".lake", "build", "bin", "drv_c08"))
+
+
+def shard_vendor(ctx, spec):
+    import random
+    _driver_built(ctx)
+    types, seed = spec
+    rng = random.Random(seed)
+    for i, mtype in enumerate(types):
+        run_vendor(ctx, mtype, i % 2, gen_vendor_steps(rng, mtype, ctx.quick))
+
+
+def define_user_subclasses():
+    """what an application may do: derive its own helper classes from the
+    library's message classes — overriding decode, changing the constructor,
+    or nothing at all — WITHOUT registering them.  Which kind is defined last
+    rotates with the message type.  Returns their names."""
+    from bacpypes import npdu as N
+    names = []
+
+    def skipping(base, name):
+        class Skipping(base):
+            def decode(self, npdu):
+                N.NPCI.update(self, npdu)
+                if npdu.pduData:
+                    npdu.get()
+        Skipping.__name__ = "Skipping" + name
+        return Skipping
+
+    def needs_arg(base, name):
+        class NeedsArg(base):
+            def __init__(self, port, *args, **kwargs):
+                base.__init__(self, *args, **kwargs)
+                self.port = port
+        NeedsArg.__name__ = "NeedsArg" + name
+        return NeedsArg
+
+    def plain(base, name):
+        class Plain(base):
+            pass
+        Plain.__name__ = "Plain" + name
+        return Plain
+    kinds = [skipping, needs_arg, plain]
+    for code, name in sorted(CLASSES.items()):
+        base = getattr(N, name)
+        for k in range(3):
+            names.append(kinds[(code + k) % 3](base, name).__name__)
+    return names
+
+
+def check_registry(ctx, names):
+    from bacpypes import npdu as N
+    for code, name in sorted(CLASSES.items()):
+        if N.npdu_types.get(code) is not getattr(N, name):
+            ctx.fail("registry-hijacked", {"op": "subclass-history", "step": {"op": "registry", "code": code}},
+                     "after defining unregistered subclasses (%s…) npdu_types[0x%02X] is %r, not bacpypes.npdu.%s" % (
+                         ", ".join(names[:3]), code, N.npdu_types.get(code), name), op="subclass-history")
+    extra = sorted(set(N.npdu_types) - set(CLASSES))
+    if extra:
+        ctx.fail("registry-hijacked", {"op": "subclass-history", "step": {"op": "registry", "code": extra[0]}},
+                 "defining unregistered subclasses added message types %r to npdu_types" % (extra,), op="subclass-history")
+
+
+def shard_subclass(ctx, spec):
+    """history: user subclasses of the library message classes exist in the
+    process; the standard decode streams must answer as before (= the model)"""
+    import random
+    _driver_built(ctx)
+    part, seed = spec
+    rng = random.Random(seed)
+    from bacpypes import npdu as N
+    saved = dict(N.npdu_types)
+    try:
+        names = define_user_subclasses()
+        w = Wrap(ctx, "subclass-history", "after defining unregistered subclasses of the library message classes: ")
+        cases = gen_mdec_typed(ctx, rng) if part == 0 else []
+        for c in gen_menc(ctx, rng):
+            if c["op"] == "menc" and msg_in_domain(c["m"]) and in_domain(dict(c["h"], msg=c["m"][0])) and len(core.canon(c)) < 3000:
+                if part == 1:
+                    cases.append(c)
+                else:
+                    cases.append({"op": "mdec", "hex": (spec_header(dict(c["h"], msg=c["m"][0]))[0] + spec_body(c["m"])).hex()})
+        run_cases(w, "subclass-history", cases)
+        check_registry(ctx, names)
+    finally:
+        N.npdu_types.clear()
+        N.npdu_types.update(saved)
 
 
 def gen_histories(ctx, rng):
@@ -1102,9 +1405,24 @@ def shard_dec(ctx, spec):
     run_cases(ctx, "dec-exh-%d" % length, cases)
 
 
+def shard_cases(ctx, spec):
+    """a generated stream cut into pieces for the worker processes"""
+    stream, cases = spec
+    run_cases(ctx, stream, cases)
+
+
 def shard_bdec(ctx, spec):
+    if spec[1] == "short":                      # lengths 0 and 1 of one class in one go
+        code = spec[0]
+        cases = [{"op": "bdec", "code": code, "hex": ""}] + [{"op": "bdec", "code": code, "hex": "%02x" % v} for v in range(256)]
+        run_cases(ctx, "bdec-exh", cases)
+        return
     code, length, lo, hi = spec
-    cases = [{"op": "bdec", "code": code, "hex": v.to_bytes(length, "big").hex() if length else ""} for v in range(lo, hi)]
+    # quick tier: the fixed-field classes read a two-octet body by length only, so
+    # every 8th value (plus both ends) is taken there; tables (count octet) stay exhaustive
+    step = 8 if (ctx.quick and length == 2 and code not in (0x06, 0x07)) else 1
+    vals = sorted(set(range(lo, hi, step)) | {lo, hi - 1})
+    cases = [{"op": "bdec", "code": code, "hex": v.to_bytes(length, "big").hex() if length else ""} for v in vals]
     run_cases(ctx, "bdec-exh", cases)
 
 
@@ -1127,8 +1445,10 @@ def run(ctx):
     impl_enc = run_cases(ctx, "enc", enc)
     run_cases(ctx, "enc-outside", gen_enc_outside(ctx, rng))
     run_histories(ctx, "history", gen_histories(ctx, ctx.sub_rng("c08-history")))
-    run_cases(ctx, "dec", gen_dec(ctx, rng))
-    run_cases(ctx, "dec-prefix", gen_prefixes(ctx, rng, enc))
+    dec = gen_dec(ctx, rng)
+    pre = gen_prefixes(ctx, rng, enc)
+    core.run_shards(ctx, "harness.c08", "shard_cases",
+                    [("dec", dec[i::6]) for i in range(6)] + [("dec-prefix", pre[i::2]) for i in range(2)])
     menc = gen_menc(ctx, rng)
     impl_menc = run_cases(ctx, "menc", menc)
     run_cases(ctx, "mdec-typed", gen_mdec_typed(ctx, rng))
@@ -1143,12 +1463,17 @@ def run(ctx):
     core.run_shards(ctx, "harness.c08", "shard_dec", specs)
     bspecs = []
     for code in sorted(CLASSES):
-        bspecs += [(code, 0, 0, 1), (code, 1, 0, 256)] + [(code, 2, lo, lo + 16384) for lo in range(0, 65536, 16384)]
+        bspecs += [(code, "short")] + [(code, 2, lo, lo + 8192) for lo in range(0, 65536, 8192)]
     # a few unregistered codes take the `unregistered` path on both sides
     bspecs += [(c, 1, 0, 4) for c in (0x0A, 0x11, 0x14, 0x80, 0xFF)]
     core.run_shards(ctx, "harness.c08", "shard_bdec", bspecs)
+    # run-time defined classes live and die in forked workers (>= 2 specs: run_shards forks)
+    vt = [0x80, 0x81, 0x90, 0xC3, 0xFE, 0xFF] if ctx.quick else list(range(0x80, 0x100))
+    k = 2 if ctx.quick else 16
+    core.run_shards(ctx, "harness.c08", "shard_vendor", [(vt[i::k], ctx.seed * 100 + i) for i in range(k)])
+    core.run_shards(ctx, "harness.c08", "shard_subclass", [(0, ctx.seed), (1, ctx.seed + 1)])
     ctx.extra["exhaustive_octet_string_length"] = 2 if ctx.quick else 3
-    ctx.extra["exhaustive_body_length"] = 2
+    ctx.extra["exhaustive_body_length"] = {"tables": 2, "other classes": 1 if ctx.quick else 2}
 
 
 def search(ctx):
@@ -1163,6 +1488,15 @@ def search(ctx):
             ctx.model_ok = model_ok
         if ctx.failures:
             return
+        if rnd == 0:
+            model_ok, ctx.model_ok = ctx.model_ok, False
+            try:
+                core.run_shards(ctx, "harness.c08", "shard_vendor", [([0x80, 0x90, 0xFF], 1), ([0x81, 0xC3, 0xFE], 2)])
+                core.run_shards(ctx, "harness.c08", "shard_subclass", [(0, 1), (1, 2)])
+            finally:
+                ctx.model_ok = model_ok
+            if ctx.failures:
+                return
         enc = gen_enc(ctx, rng)
         menc = gen_menc(ctx, rng)
         frames = []
@@ -1192,5 +1526,14 @@ def replay(ctx, payload):
         raise core.Infra("nothing to replay")
     if case["op"] == "history":
         run_histories(ctx, "replay", [case["steps"]])
+        return
+    if case["op"] == "vendor":
+        run_vendor(ctx, case["type"], case["flavor"], [case["vstep"]])
+        return
+    if case["op"] == "subclass-history":
+        names = define_user_subclasses()
+        if case["step"].get("op") != "registry":
+            run_cases(Wrap(ctx, "subclass-history", "after defining unregistered subclasses: "), "replay", [case["step"]])
+        check_registry(ctx, names)
         return
     run_cases(ctx, "replay", [case])
